@@ -174,7 +174,16 @@ Sum(seq) == LET RECURSIVE S(_) S(i) == IF i = 0 THEN 0 ELSE seq[i] + S(i - 1) IN
 EmbedArrayExact(k, r, np, ew, eb) ==
   (k = "earr" /\ cfg.em = "asm" /\ r = 0) => (ew = 0 /\ Sum(np.ss) - Sum(proj.ss) = eb)
 
-Call(k, r, hc, th, osin, np, nos, vr, sh, fr, tw, ew, eb) ==
+(* Requests that the documentation itself names as invalid must be refused (whatever the emitter kind or options):     *)
+(* di = 1 iff the harness built one of                                                                                  *)
+(*   - new_named_label(type kLocal, parent id that is not an existing label id) / (kGlobal|kExternal with a parent id)  *)
+(*     -> kInvalidParentLabel (codeholder.h: "parent_id ... must be a valid label id of this holder");                  *)
+(*   - AArch64 Assembler: a pc-relative word-scaled reference (b/bl/cbz/tbz/ldr literal) to a label already bound in    *)
+(*     the current section at a distance that is not a multiple of 4 -> kInvalidDisplacement (the field cannot hold it; *)
+(*     accepting would silently drop the low bits).                                                                     *)
+DocumentedInvalidRefused(k, r, di) == di = 1 => r # 0
+
+Call(k, r, hc, th, osin, np, nos, vr, sh, fr, tw, ew, eb, di) ==
   /\ IF k = "finalize" THEN FinalizeOutcome(r, hc, th, np)
      ELSE IF r = 0 THEN OkOutcome(k, hc, th, np)
      ELSE ErrOutcome(k, r, hc, th, osin, np, nos)
@@ -182,6 +191,7 @@ Call(k, r, hc, th, osin, np, nos, vr, sh, fr, tw, ew, eb) ==
   /\ VirtRule(k, r, vr)
   /\ FieldsInDocumentedRange(k, r, fr)
   /\ FastSlowAgree(k, r, tw)
+  /\ DocumentedInvalidRefused(k, r, di)
   /\ EmbedArrayExact(k, r, np, ew, eb)
   /\ proj' = np
   /\ os' = nos
